@@ -292,9 +292,9 @@ def _call(I, f, args, ci, node):
         I.frames = []
 
 
-def filter_rule(check, L):
+def filter_rule(check, L, n_samples=5):
     I, W = L.I, L.W
-    pts = [Tup(tuple(Num(Poly.sym(f"p{i}.{a}")) for a in AX)) for i in range(5)]
+    pts = [Tup(tuple(Num(Poly.sym(f"p{i}.{a}")) for a in AX)) for i in range(n_samples)]
     arr = ArrV(tuple(pts))
     n = 0
     ok = 0
@@ -377,7 +377,7 @@ def run(check, repo, tier):
             for dims in ((3, 2) if shape in ("arc", "helix") else (3,)):
                 n += analyse_shape(check, L, shape, direction, dims)
     n += direction_rules(check, L)
-    n += filter_rule(check, L)
+    n += filter_rule(check, L, 7 if tier == "thorough" else 5)
     n += spline_rule(check, L)
     check.analysed = {"program": P.stats(), "abstract_paths": n, "shapes": ["arc", "circle", "helix", "thread", "spiral", "arc_radius", "spline"]}
     check.sample({"shape": "arc (clockwise)", "x(theta)": "o.x + c.x + hypot(c.x, c.y) * cos(start + (end - start [- 2*pi]) * theta)", "f(0)": "o", "f(1)": "t given hypot(start) = hypot(end)"})
